@@ -7,6 +7,7 @@ CONSTANTS
   FixEnqueue = FALSE
   FixBatch = FALSE
   LossySend = TRUE
+  HasKeepalive = TRUE
 INVARIANTS TypeOK
 PROPERTIES CallerReturns
 CHECK_DEADLOCK FALSE
